@@ -131,10 +131,16 @@ def _drive_one(ctx, st, rng, nperm, nrep, n, x, obj, wit, call, base, d0):
                 lo = call([a[:k_].copy() if a.shape[:1] == (n,) else a[..., :k_].copy() for a in x])
                 hi = call([a[k_:].copy() if a.shape[:1] == (n,) else a[..., k_:].copy() for a in x])
                 ctx.count("split", n)
-                bad = [i for i, (p, q, r_) in enumerate(zip(lo, hi, base)) if not eq(np.concatenate([p, q]), r_)]
+                def cat(p, q):
+                    try:
+                        return np.concatenate([p, q])
+                    except ValueError:
+                        return np.zeros((0,))  # incompatible shapes: cannot equal the whole-batch output
+
+                bad = [i for i, (p, q, r_) in enumerate(zip(lo, hi, base)) if not eq(cat(p, q), r_)]
                 if bad:
                     k = bad[0]
-                    ctx.violation("split", f"{st.name}: splitting the batch of {n} at {k_} and concatenating changes output #{k}: {first_diff(np.concatenate([lo[k], hi[k]]), base[k])}", dict(wit, split=k_, output=k))
+                    ctx.violation("split", f"{st.name}: splitting the batch of {n} at {k_} and concatenating changes output #{k}: parts have shapes {np.shape(lo[k])} and {np.shape(hi[k])}, the whole batch {np.shape(base[k])}; {first_diff(cat(lo[k], hi[k]), base[k])}", dict(wit, split=k_, output=k))
                     break
         # ---- single events equal the batch rows
         if 1 < n <= 8193:
